@@ -18,21 +18,22 @@ import (
 // either PROPAGATED — every path behind the call's failure edge leaves the
 // function with a non-nil error (or panics) — or the site is one of the sites
 // that already tolerate the error on the reference tree (frozen table
-// tolerated_errors.json: function, callee, count). A change that turns a
+// tolerated_errors.json: package, callee, count). A change that turns a
 // propagated error into a logged-and-ignored one ("swallowed error") is
 // reported; so is a new call whose error is dropped. Sites that disappear are
 // not reported (the specific rules own the anchors that must exist).
 
 type tolerated struct {
-	Func   string `json:"func"`
+	Pkg    string `json:"pkg"` // module-relative package of the calling function
 	Callee string `json:"callee"`
 	N      int    `json:"n"`
+	Where  string `json:"where,omitempty"` // functions holding the sites on the reference tree (informational)
 }
 
 // ErrSite is one classified call site.
 type ErrSite struct {
-	Func, Callee, Pos string
-	Propagated        bool
+	Pkg, Func, Callee, Pos string
+	Propagated             bool
 }
 
 // anchorFiles lists the property's anchor files (module-relative).
@@ -110,7 +111,7 @@ func ErrSites(w *kit.World, files []string) []ErrSite {
 					if callee == "os.Remove" || callee == "os.RemoveAll" {
 						continue
 					}
-					site := ErrSite{Func: kit.FuncKey(fn), Callee: callee, Pos: w.Pos(call.Pos())}
+					site := ErrSite{Pkg: kit.RelPkg(p.PkgPath), Func: kit.FuncKey(fn), Callee: callee, Pos: w.Pos(call.Pos())}
 					site.Propagated = propagated(fn, call)
 					out = append(out, site)
 				}
@@ -184,7 +185,7 @@ func loadTolerated(verif string) map[string]int {
 		return nil
 	}
 	for _, t := range ts {
-		out[t.Func+"|"+t.Callee] = t.N
+		out[t.Pkg+"|"+t.Callee] = t.N
 	}
 	return out
 }
@@ -205,13 +206,13 @@ func errPropagation(c *Ctx, r string, verif string) {
 			nProp++
 			continue
 		}
-		k := s.Func + "|" + s.Callee
+		k := s.Pkg + "|" + s.Callee
 		seen[k]++
 		if seen[k] <= tol[k] {
 			c.R.Pass(r, fmt.Sprintf("%s: error of %s tolerated#%d", s.Func, s.Callee, seen[k]), s.Pos, "tolerated on the reference tree (tabled)", false)
 			continue
 		}
-		c.R.Fail(r, fmt.Sprintf("%s: error of %s", s.Func, s.Callee), s.Pos, fmt.Sprintf("the error returned by %s is not propagated by %s (a path behind its failure edge returns nil / goes on) and this site is not one of the %d tolerated on the reference tree: a failure of this step would be swallowed", s.Callee, s.Func, tol[k]))
+		c.R.Fail(r, fmt.Sprintf("%s: error of %s", s.Func, s.Callee), s.Pos, fmt.Sprintf("the error returned by %s is not propagated by %s (a path behind its failure edge returns nil / goes on) and package %s tolerates an error of this callee at only %d site(s) on the reference tree: a failure of this step would be swallowed", s.Callee, s.Func, s.Pkg, tol[k]))
 	}
 	c.R.Check(nProp > 0, r, "propagated error sites in the anchor files", "", fmt.Sprintf("%d propagated", nProp), "no propagated error site found in the property's anchor files", true)
 	c.R.Note(fmt.Sprintf("error-propagation baseline: %d fallible call sites in error-returning functions of %d anchor files, %d propagated", len(sites), len(files), nProp))
@@ -230,6 +231,7 @@ func GenTolerated(w *kit.World) {
 		files = append(files, f)
 	}
 	cnt := map[string]int{}
+	where := map[string][]string{}
 	total, prop := 0, 0
 	for _, s := range ErrSites(w, files) {
 		total++
@@ -237,17 +239,19 @@ func GenTolerated(w *kit.World) {
 			prop++
 			continue
 		}
-		cnt[s.Func+"|"+s.Callee]++
+		k := s.Pkg + "|" + s.Callee
+		cnt[k]++
+		where[k] = append(where[k], s.Func)
 		fmt.Fprintf(os.Stderr, "tolerated: %s  %s  %s\n", s.Pos, s.Func, s.Callee)
 	}
 	var ts []tolerated
 	for k, n := range cnt {
 		i := strings.Index(k, "|")
-		ts = append(ts, tolerated{Func: k[:i], Callee: k[i+1:], N: n})
+		ts = append(ts, tolerated{Pkg: k[:i], Callee: k[i+1:], N: n, Where: strings.Join(where[k], ", ")})
 	}
 	sort.Slice(ts, func(i, j int) bool {
-		if ts[i].Func != ts[j].Func {
-			return ts[i].Func < ts[j].Func
+		if ts[i].Pkg != ts[j].Pkg {
+			return ts[i].Pkg < ts[j].Pkg
 		}
 		return ts[i].Callee < ts[j].Callee
 	})
